@@ -70,6 +70,21 @@ fn gen_weights(r: &mut Rng, big: bool) -> (&'static str, Vec<i64>) {
 fn gen_case(r: &mut Rng, tier: &str) -> (String, u64, Vec<i64>, usize, usize) {
     let big = tier == "thorough";
     let alg = r.below(2);
+    if r.chance(1, 30) {
+        // mid-size inputs: beyond the small-slice paths of the standard library's sort (> 20 elements),
+        // many parts (Greedy: up to 64; KarmarkarKarp: up to 12, rows stay below 20 entries)
+        let (n, k) = if alg == 0 {
+            (r.range(64, 300) as usize, r.range(2, 64) as usize)
+        } else {
+            (r.range(30, 100) as usize, r.range(2, 12) as usize)
+        };
+        let ws: Vec<i64> = match r.below(3) {
+            0 => (0..n).map(|_| r.range(0, 1000)).collect(),
+            1 => (0..n).map(|_| r.range(1, 6)).collect(),
+            _ => (0..n).map(|i| if i % 17 == 0 { r.range(500, 5000) } else { r.range(0, 20) }).collect(),
+        };
+        return ("mid_size".to_string(), alg, ws, k, n);
+    }
     let (name, ws) = gen_weights(r, big);
     let n = ws.len();
     // part counts: mostly 2..8, sometimes 0, 1, more parts than elements
